@@ -38,6 +38,11 @@ enum Case {
     RepDegenerate { frames: Vec<Vec<u8>> },
     /// real REQ <-> real REP
     BackToBack { kinds: Vec<u8> },
+    /// two requests in a row on ONE real REP: the reply to the second must carry exactly the
+    /// second request's envelope whatever happened to the first.
+    /// first: 0 bare answered, 1 prefixed answered, 2 prefixed NOT answered, 3 degenerate [id, ""] (rejected),
+    /// 4 prefixed, reply attempted after the requester's connection failed writes
+    RepTwoStep { first: u8, first_prefix: u8, second_prefix: u8 },
 }
 
 #[derive(Clone, Debug, PartialEq)]
@@ -60,6 +65,7 @@ fn case_json(c: &Case) -> Value {
         Case::RepSide { kinds, prefix } => json!({"case":"rep","kinds":kinds,"prefix":prefix}),
         Case::RepDegenerate { frames } => json!({"case":"repdeg","frames":frames.iter().map(|f| rc::hex(f)).collect::<Vec<_>>()}),
         Case::BackToBack { kinds } => json!({"case":"b2b","kinds":kinds}),
+        Case::RepTwoStep { first, first_prefix, second_prefix } => json!({"case":"rep2","first":first,"first_prefix":first_prefix,"second_prefix":second_prefix}),
     }
 }
 
@@ -78,6 +84,7 @@ fn case_from(v: &Value) -> Option<Case> {
         },
         "rep" => Case::RepSide { kinds: kinds(), prefix: v["prefix"].as_u64()? as u8 },
         "repdeg" => Case::RepDegenerate { frames: v["frames"].as_array()?.iter().map(|f| rc::unhex(f.as_str().unwrap_or(""))).collect() },
+        "rep2" => Case::RepTwoStep { first: v["first"].as_u64()? as u8, first_prefix: v["first_prefix"].as_u64()? as u8, second_prefix: v["second_prefix"].as_u64()? as u8 },
         _ => Case::BackToBack { kinds: kinds() },
     })
 }
@@ -87,7 +94,7 @@ fn show(m: &[Vec<u8>]) -> String {
 }
 
 fn scenario(case: &Case) -> Verdict {
-    world::reset(world::WorldCfg { nested_env: false, yields: false, select: false, policy: 0 });
+    world::reset(world::WorldCfg { nested_env: false, yields: false, select: false, policy: 0, coop: false });
     let viol = std::rc::Rc::new(std::cell::RefCell::new(Vec::<(String, String)>::new()));
     let obs = std::rc::Rc::new(std::cell::RefCell::new(Vec::<String>::new()));
     let (viol2, obs2) = (viol.clone(), obs.clone());
@@ -259,6 +266,75 @@ fn scenario(case: &Case) -> Verdict {
                 drop(s);
             });
         }
+        Case::RepTwoStep { first, first_prefix, second_prefix } => {
+            let c1 = e3::raw_conn("first");
+            let c2 = e3::raw_conn("second");
+            c1.send(&rc::handshake("DEALER", Some(b"C1")));
+            c2.send(&rc::handshake("DEALER", Some(b"C2")));
+            let pf1 = prefix(first_prefix);
+            let pf2: Vec<Vec<u8>> = prefix(second_prefix).into_iter().map(|mut f| { f[0] ^= 0x20; f }).collect();
+            let req1: Vec<Vec<u8>> = if first == 3 {
+                let mut r = pf1.clone();
+                r.push(vec![]);
+                r
+            } else {
+                let mut r = pf1.clone();
+                r.push(vec![]);
+                r.push(b"one".to_vec());
+                r
+            };
+            c1.send(&rc::encode_message(&req1));
+            c2.gate("second-go");
+            let mut req2 = pf2.clone();
+            req2.push(vec![]);
+            req2.push(b"two".to_vec());
+            req2.push(vec![]);
+            c2.send(&rc::encode_message(&req2));
+            world::spawn_app("app", async move {
+                let mut s = AnySocket::new(Ty::Rep, None);
+                let _ = e3::attach_raw(s.backend(), c1).await;
+                let _ = e3::attach_raw(s.backend(), c2).await;
+                let r = world::until_idle(s.recv()).await;
+                let rs = r.as_ref().map(e3::show_result).unwrap_or_else(|| "pending".into());
+                obs2.borrow_mut().push(format!("recv#1 -> {}", rs));
+                match first {
+                    0 | 1 => {
+                        let r = s.send(msg(&[b"r1".to_vec()])).await;
+                        obs2.borrow_mut().push(format!("send#1 -> {}", e3::ok_or_err(&r)));
+                    }
+                    4 => {
+                        world::set_wmode(c1.from_lib, world::WMode::Fail(std::io::ErrorKind::BrokenPipe));
+                        let r = s.send(msg(&[b"r1".to_vec()])).await;
+                        obs2.borrow_mut().push(format!("send#1 -> {}", e3::ok_or_err(&r)));
+                    }
+                    _ => {}
+                }
+                world::set_cond("second-go");
+                let r = world::until_idle(s.recv()).await;
+                let rs = r.as_ref().map(e3::show_result).unwrap_or_else(|| "pending".into());
+                obs2.borrow_mut().push(format!("recv#2 -> {}", rs));
+                let want_payload = vec![b"two".to_vec(), vec![]];
+                if rs != format!("Ok{}", show(&want_payload)) {
+                    viol2.borrow_mut().push(("rep-two-step/second-request".into(), format!("second request {} came out as {}", show(&req2), rs)));
+                    return;
+                }
+                let before = c2.tap_messages().len();
+                let r = s.send(msg(&[b"r2".to_vec(), vec![], b"tail".to_vec()])).await;
+                obs2.borrow_mut().push(format!("send#2 -> {}", e3::ok_or_err(&r)));
+                let mut want = pf2.clone();
+                want.push(vec![]);
+                want.extend(vec![b"r2".to_vec(), vec![], b"tail".to_vec()]);
+                let wire = c2.tap_messages();
+                if wire.len() != before + 1 || wire.last() != Some(&want) {
+                    viol2.borrow_mut().push((
+                        "rep-two-step/reply-envelope-not-that-of-the-request-being-answered".into(),
+                        format!("first request {} ({}), second request {}: the reply to the second went out as {:?}, expected exactly {}", show(&req1), ["answered", "answered", "left unanswered", "rejected (nothing after its delimiter)", "reply failed on a broken connection"][first as usize], show(&req2), wire.iter().skip(before).map(|m| show(m)).collect::<Vec<_>>(), show(&want)),
+                    ));
+                }
+                world::wait_cond("never").await;
+                drop(s);
+            });
+        }
     }
     let end = world::run(e3::HORIZON);
     let mut v = Verdict::default();
@@ -323,6 +399,16 @@ pub fn run(tier: Tier, replay: Option<String>) -> i32 {
             cases.push(Case::ReqSide { kinds: p.clone(), reply: r });
         }
     }
+    for first in 0..5u8 {
+        for first_prefix in 0..=2u8 {
+            if first == 0 && first_prefix != 0 || (first != 0 && first_prefix == 0) {
+                continue;
+            }
+            for second_prefix in 0..=2u8 {
+                cases.push(Case::RepTwoStep { first, first_prefix, second_prefix });
+            }
+        }
+    }
     let id = b"I".to_vec();
     for f in [
         vec![vec![]],
@@ -350,7 +436,7 @@ pub fn run(tier: Tier, replay: Option<String>) -> i32 {
     ck.cov("traces_validated_against_impl", ex);
     ck.cov("payload_shapes", payloads.len() as u64);
     ck.cov("exhaustive", true);
-    ck.cov("explanation", format!("complete product: {} payload shapes (1..4 frames, each empty / 1 byte / 256 bytes{}) x (A) real REQ against a raw REP peer (wire after send must be exactly [\"\",payload]; reply [\"\",r] must come back as r; 4 malformed reply shapes must never be handed over as Ok), (B) raw REQ/DEALER/ROUTER-chain peer with 0..3 identity frames (1 B / 255 B) against a real REP (recv = frames after the first empty frame; reply on the wire = prefix + \"\" + reply), (C) real REQ <-> real REP back to back; plus 6 degenerate requests (delimiter-only, single frame, delimiter last) that must never surface as a zero-frame message. states = cases, transitions = executions (sequential code: one schedule per case).", payloads.len(), tier.pick("", " / 70000 bytes")));
+    ck.cov("explanation", format!("complete product: {} payload shapes (1..4 frames, each empty / 1 byte / 256 bytes{}) x (A) real REQ against a raw REP peer (wire after send must be exactly [\"\",payload]; reply [\"\",r] must come back as r; 4 malformed reply shapes must never be handed over as Ok), (B) raw REQ/DEALER/ROUTER-chain peer with 0..3 identity frames (1 B / 255 B) against a real REP (recv = frames after the first empty frame; reply on the wire = prefix + \"\" + reply), (C) real REQ <-> real REP back to back; plus 6 degenerate requests (delimiter-only, single frame, delimiter last) that must never surface as a zero-frame message; plus two-step histories on ONE REP socket (first request bare / routed, answered / left unanswered / rejected / its reply failing on a broken connection; second request bare or routed): the reply to the second request must carry exactly the second request's envelope. states = cases, transitions = executions (sequential code: one schedule per case).", payloads.len(), tier.pick("", " / 70000 bytes")));
     ck.assume("envelope handling is sequential per socket: no scheduling choice influences it (one execution per case)");
     ck.assume("requests with no empty frame at all are not judged (the statement does not define them)");
     ck.conclude()
